@@ -13,7 +13,7 @@ Definition dst_ : name := NX 3.
 (* pinned ReorderDataCallback: the owner subscribes to its own node whose index was created by REORDERDATA
    (replay `2|0>sd:a/x:0;0>ro:a/x:-;0>su:*/a`): the snapshot is skipped and the replica stays empty *)
 Definition reorder_witness : list (nat * list cmd) :=
-  [ (0, [CSetData [a_; x_] false]); (0, [CReorder [CLit a_; CLit x_] BEnd]); (0, [CSubscribe [CAny; CLit a_]]) ].
+  [ (0, [CSetData [([a_; x_], false)] false]); (0, [CReorder [([CLit a_; CLit x_], BEnd)]]); (0, [CSubscribe [CAny; CLit a_]]) ].
 
 Lemma reorder_ipres_refuted :
   exists steps s p, let st := run cfg_pinned 1 steps in
@@ -51,9 +51,9 @@ Definition step_late_push (cfg : config) (st : state) (sc : nat * list cmd) : st
   if fst sc <? st_n st then flush (fold_left (fun st c => handle cfg st (fst sc) c) (snd sc) (with_out st [])) else st.
 
 Definition batch_witness_prefix : list (nat * list cmd) :=
-  [ (0, [CSetData [a_] false]); (0, [CSubscribe [CLit (NS 0); CLit a_]]); (0, [CInsertOrdered [CLit a_] [BEnd; BEnd]]) ].
+  [ (0, [CSetData [([a_], false)] false]); (0, [CSubscribe [CLit (NS 0); CLit a_]]); (0, [CInsertOrdered [[CLit a_]] [BEnd; BEnd]]) ].
 Definition batch_witness_last : nat * list cmd :=
-  (0, [CInsertOrdered [CLit a_] [BName (NI 1)]; CGetData [CLit (NS 0); CLit a_]]).
+  (0, [CInsertOrdered [[CLit a_]] [BName (NI 1)]; CGetData [CLit (NS 0); CLit a_]]).
 
 Lemma late_push_refuted :
   let st := step_late_push cfg_fixed (run cfg_fixed 1 batch_witness_prefix) batch_witness_last in
@@ -72,13 +72,26 @@ Proof. vm_compute. split; reflexivity. Qed.
 Lemma empty_snapshot_is_silent : forall stale, replay (snapshot (mkNode (Some []) 0)) stale = stale.
 Proof. intro stale. reflexivity. Qed.
 
+Definition nv_steps_ : list (nat * list cmd) :=
+  [ (1, [CSubscribe [CAny; CLit a_]]);
+    (0, [CSetData [([a_], false)] false]);
+    (0, [CInsertOrdered [[CLit a_]] [BEnd; BEnd; BName (NI 0)]]) ].
+
+(* a quiet removal (PR_NAME_REMOVE_QUIETLY) leaves the parent's watchers with a stale replica: the exclusion of
+   quiet removals from the histories of replay_eq is necessary, and quiet_frame's exception is exact *)
+Lemma quiet_removal_refuted :
+  let st := remove_child_quiet (run cfg_fixed 2 (firstn 3 nv_steps_)) [NS 0; a_; NI 1] in
+  subscribed st 1 [NS 0; a_] = true /\ st_pend st = [] /\
+  index_at (st_tree st) [NS 0; a_] = [NI 2; NI 0] /\ st_mirror st 1 [NS 0; a_] = [NI 2; NI 0; NI 1].
+Proof. vm_compute. repeat split; reflexivity. Qed.
+
 (* non-vacuity: a history with two sessions, a foreign subscriber, nested indices and a recursive removal,
    ending in a state where the premises of replay_eq hold with a non-trivial index *)
 Definition nv_steps : list (nat * list cmd) :=
   [ (1, [CSubscribe [CAny; CLit a_]]);
-    (0, [CSetData [a_] false]);
-    (0, [CInsertOrdered [CLit a_] [BEnd; BEnd; BName (NI 0)]]);
-    (0, [CReorder [CLit a_; CLit (NI 0)] BEnd; CGetData [CAny; CLit a_]]);
+    (0, [CSetData [([a_], false)] false]);
+    (0, [CInsertOrdered [[CLit a_]] [BEnd; BEnd; BName (NI 0)]]);
+    (0, [CReorder [([CLit a_; CLit (NI 0)], BEnd)]; CGetData [CAny; CLit a_]]);
     (0, [CRemove [CLit a_; CLit (NI 1)]]) ].
 
 Example nv_replay_eq :
